@@ -251,6 +251,11 @@ func (ind *induction) constRange() (lo, hi int64, ok bool) {
 		return i0 + d, b - 1, true
 	case token.LEQ:
 		return i0 + d, b, true
+	case token.NEQ:
+		// i != b with unit steps from a start not above b: the body sees start .. b-1
+		if ind.Step == 1 && i0+d <= b {
+			return i0 + d, b - 1, true
+		}
 	}
 	return 0, 0, false
 }
